@@ -329,6 +329,16 @@ def orientation_semantics(repo, col):
                 if not any(x is v or any(x is y for y in ast.walk(v))
                            for _, v in steps):
                     extra_ops.append(x)
+    # the layout the re-oriented block must have is that of its consumer:
+    # chunks are (C, Z, Y, X); volume_to_precomputed takes the nibabel
+    # layout (X, Y, Z, C) and transposes itself
+    final_layout = "CZYX"
+    for c_ in _ci(fn.node):
+        if (call_name(c_) or "").split(".")[-1] == "volume_to_precomputed" \
+                and any(isinstance(a_, ast.Name) and a_.id == "block"
+                        for a_ in list(c_.args) +
+                        [k_.value for k_ in c_.keywords]):
+            final_layout = "XYZC"
     n = 0
     bad = []
     # per-axis vectors moved between volume order (X, Y, Z) and input order
@@ -427,9 +437,14 @@ def orientation_semantics(repo, col):
                     "cannot evaluate: %r" % exc, undecided=True)
             continue
         n += 1
-        want = [("C", 1), None, None, None]
+        if final_layout == "XYZC":
+            want = [None, None, None, ("C", 1)]
+            posmap = {"X": 0, "Y": 1, "Z": 2}
+        else:
+            want = [("C", 1), None, None, None]
+            posmap = {"X": 3, "Y": 2, "Z": 1}
         for j, (lab, letter) in enumerate(zip(("COL", "ROW", "SLC"), code)):
-            pos = {"X": 3, "Y": 2, "Z": 1}[axis_of[letter]]
+            pos = posmap[axis_of[letter]]
             want[pos] = (lab, sign_of[letter])
         ok = axes == want
         if not ok:
@@ -439,8 +454,9 @@ def orientation_semantics(repo, col):
                                "this model does not include"
                                % norm(extra_ops[0])[:50] if extra_ops else
                                "for orientation %s the block ends up as %s "
-                               "(position = C,Z,Y,X; sign -1 = reversed); the "
-                               "code designates %s" % (code, axes, want)),
+                               "(position = %s; sign -1 = reversed); the "
+                               "code designates %s" % (
+                                   code, axes, ",".join(final_layout), want)),
                 undecided=not ok and bool(extra_ops))
     for c in perm_calls:
         b = vec_bad[id(c)]
